@@ -315,6 +315,93 @@ pub fn run_c11<C: NatCtx>(v: &mut Env<C>) {
             raw(v, &shifted);
         }
     }
+    // ---- the radix-string entry point (element_from_string_radix) and to_string_radix
+    {
+        let radixes: Vec<u32> = if quick { vec![2, 8, 10, 16, 36] } else { (2..=36).collect() };
+        let mut vals: Vec<BigUint> = vec![big(0), big(1), &p - 1u32, p.clone(), &p + 1u32, q.clone(), g.clone(), &p * 2u32 + 1u32];
+        if v.small && p <= big(47) {
+            vals = (0..60u32).map(BigUint::from).collect();
+        }
+        for _ in 0..(if quick { 4 } else { 30 }) {
+            let m = v.rnd_member();
+            vals.push(&p - &m);
+            vals.push(m);
+            vals.push(v.h.rng.below(&p));
+        }
+        let mut from_str = |v: &mut Env<C>, radix: u32, s: &[u8], canonical_of: Option<&BigUint>| {
+            let st = String::from_utf8(s.to_vec()).unwrap();
+            let ctx2 = ctx.clone();
+            let r = v.case("e_from_str", vec![nu(radix as u64), b(s)], || match std::panic::catch_unwind(std::panic::AssertUnwindSafe(|| ctx2.e_from_str(&st, radix))) {
+                Ok(Ok(e)) => Out::Ok(Val::Nat(C::e_val(&e))),
+                Ok(Err(_)) => Out::Err,
+                Err(_) => Out::Panic,
+            });
+            let tok = v.tok.clone();
+            v.h.check(r != Out::Panic, || format!("element_from_string_radix({:?}, {}) panics on {}", String::from_utf8_lossy(s), radix, tok));
+            if let Out::Ok(Val::Nat(e)) = &r {
+                let member = *e >= big(1) && *e < p && e.modpow(&q, &p) == big(1);
+                v.h.check(member, || format!("element_from_string_radix({:?}, {}) = {:x}: not a member on {}", String::from_utf8_lossy(s), radix, e, tok));
+            }
+            if let Some(x) = canonical_of {
+                let member = *x >= big(1) && *x < p && x.modpow(&q, &p) == big(1);
+                v.h.check((r == Out::Ok(n(x))) == member && (member || r == Out::Err), || format!("element_from_string_radix of the radix-{} string of {:x} = {:?}, membership is {} on {}", radix, x, r, member, tok));
+            }
+        };
+        for (i, x) in vals.iter().enumerate() {
+            for &radix in &radixes {
+                if !v.small && !quick && radix % 5 != 1 && ![2, 8, 10, 16, 36].contains(&radix) {
+                    continue;
+                }
+                let ex = C::e_raw(x);
+                let s = v.case("to_str", vec![nu(radix as u64), n(x)], || Out::Ok(b(C::e_to_str(&ex, radix).as_bytes())));
+                let xx = C::x_raw(x);
+                let s2 = v.case("to_str", vec![nu(radix as u64), n(x)], || Out::Ok(b(C::x_to_str(&xx, radix).as_bytes())));
+                v.h.check(s == s2, || "elements and exponents print differently".to_string());
+                let Out::Ok(Val::Bytes(sb)) = s else { continue };
+                from_str(v, radix, &sb, Some(x));
+                // upper case and leading zeros denote the same number on both libraries
+                let up: Vec<u8> = sb.iter().map(|c| c.to_ascii_uppercase()).collect();
+                from_str(v, radix, &up, Some(x));
+                let mut z = vec![b'0'; 1 + i % 3];
+                z.extend(&sb);
+                from_str(v, radix, &z, Some(x));
+                // malformed: characters no grammar accepts, at either end and inside
+                for bad in [&b"-"[..], b" ", b"!", b"\n", b"."] {
+                    let mut t = sb.clone();
+                    t.extend(bad);
+                    from_str(v, radix, &t, None);
+                    let mut t = bad.to_vec();
+                    t.extend(&sb);
+                    from_str(v, radix, &t, None);
+                }
+                // a digit equal to the radix (generic path of both libraries; radix 8/16 only on short strings, see Model/Radix.lean)
+                if radix < 36 && (le || ![8, 16].contains(&radix) || sb.len() < 10) {
+                    let dch = if radix < 10 { b'0' + radix as u8 } else { b'a' + (radix - 10) as u8 };
+                    let mut t = sb.clone();
+                    t.push(dch);
+                    from_str(v, radix, &t, None);
+                }
+                if le {
+                    // num-bigint only: one leading '+', '_' separators (not leading)
+                    for pre in [&b"+"[..], b"++", b"_", b"+_"] {
+                        let mut t = pre.to_vec();
+                        t.extend(&sb);
+                        from_str(v, radix, &t, None);
+                    }
+                    let mut t = sb.clone();
+                    t.insert(sb.len() / 2 + (sb.len() % 2), b'_');
+                    from_str(v, radix, &t, None);
+                    let mut t = sb.clone();
+                    t.push(b'_');
+                    from_str(v, radix, &t, None);
+                }
+            }
+        }
+        for &radix in &radixes {
+            from_str(v, radix, b"", None);
+            if le { from_str(v, radix, b"+", None); from_str(v, radix, b"_", None); }
+        }
+    }
     // composite objects decode only if each embedded element / exponent does
     let reps = if quick { 2 } else { 8 };
     let bad_e: Vec<BigUint> = vec![big(0), &p - 1u32, p.clone(), &p + 5u32];
